@@ -73,6 +73,9 @@ struct Harness {
     reopen_thread: bool,
     /// the first thread's records log another record (tag 9) while they are being formatted
     recursive: bool,
+    /// one more controlled thread calls reset_flw() onto the same file (append) while the others
+    /// log: what was logged before must not end up behind what is logged afterwards
+    reset_thread: bool,
 }
 
 fn harnesses() -> Vec<Harness> {
@@ -90,6 +93,7 @@ fn harnesses() -> Vec<Harness> {
         unmodelled_state_lock: false,
         reopen_thread: false,
         recursive: false,
+        reset_thread: false,
     };
     let num = OutK::File(Some(NamingK::Numbers));
     let mut v = vec![
@@ -142,6 +146,16 @@ fn harnesses() -> Vec<Harness> {
         x.recursive = true;
         v.push(x);
     }
+    for (name, mode, out, thorough_only) in [
+        ("buffered64/file-norotation/2x2+reset-thread", ModeK::BufDont(64), OutK::File(None), false),
+        ("buffered8/file-norotation/2x2+reset-thread", ModeK::BufDont(8), OutK::File(None), false),
+        ("buffered64/file-numbers/2x2+reset-thread", ModeK::BufDont(64), num, true),
+    ] {
+        // (a small record first: it stays in the buffer, the larger one after it does not)
+        let mut x = h(name, mode, out, CleanK::Never, false, 2, 2, &[6, 9], 0, thorough_only);
+        x.reset_thread = true;
+        v.push(x);
+    }
     for (name, mode, thorough_only) in [
         ("direct/file-numbers/2x2+reopen-thread", ModeK::Direct, false),
         ("buffered8/file-numbers/2x2+reopen-thread", ModeK::BufDont(8), false),
@@ -173,6 +187,7 @@ fn sched_cfg(h: &Harness) -> SchedCfg {
         // always on: a lock the hooks do not know (a change that adds one) must not stall the run
         detect_real_blocking: true,
         nonblocking_locks: if h.unmodelled_state_lock { vec!["flw_state"] } else { vec![] },
+        points_after_release: if h.reset_thread { vec!["flw_state"] } else { vec![] },
         ..SchedCfg::default()
     }
 }
@@ -384,6 +399,16 @@ fn body(h: Harness) -> Arc<dyn Fn(&Arc<Sched>) -> Obs + Send + Sync> {
                 drop(h2);
             }));
         }
+        if h.reset_thread {
+            let h2 = handle.clone();
+            let mut cfg = w.cfg.clone();
+            cfg.append = true;
+            let dir = w.env.dir.clone();
+            hs.push(s.spawn("reset", move || {
+                h2.reset_flw(&cfg.flw_builder(&dir)).ok();
+                drop(h2);
+            }));
+        }
         for jh in hs {
             s.join(jh);
         }
@@ -510,6 +535,7 @@ fn stress(out: &mut Out) {
             unmodelled_state_lock: false,
             reopen_thread: false,
             recursive: name.contains("recursive"),
+            reset_thread: false,
         };
         let h2 = h.clone();
         let r = crate::run_isolated(std::time::Duration::from_secs(60), move || {
